@@ -19,6 +19,8 @@ import (
 var c12Items = []string{
 	"ip:10.0.0.0/8", "ip:10.1.2.3", "ip:fe80::/10", "ip:::1", "IP: 10.0.0.0/8 ", "ip:192.168.0.0/16",
 	"ip:10.0.0.0/33", "ip:300.1.1.1", "ip:", "foo:bar", "10.0.0.0/8", "ip:10.0.0.0/8/8", "ip:fe80::/129",
+	// blocks nested in the ones above, with the same base address (narrower and single host)
+	"ip:10.0.0.0/24", "ip:10.0.0.0", "ip:fe80::/64", "ip:192.168.0.0",
 }
 
 var c12Peers = []string{"10.1.2.3", "10.255.255.255", "11.0.0.1", "192.168.0.1", "::1", "fe80::1", "fe80::1%eth0", "::ffff:10.1.2.3", "2001:db8::1", "0.0.0.0"}
@@ -132,7 +134,7 @@ func c12Sig(kind string, r c12Rule, peer string, xff bool) string {
 
 func TestVerifC12Rules(t *testing.T) {
 	L := ev.Begin("C12", "c12-rules", "exploration",
-		"every allow/deny list of 1..2 items from 13 items (v4/v6 blocks and single addresses, case/space variants, /33, /129, bad address, empty, unknown type, missing type, double slash) x 10 peers (incl. zone-scoped and v4-mapped v6) x X-Forwarded-For in {none, inside, outside, inside+outside, garbage, peer itself, chains with unparsable elements before/between addresses}, through NewTable opts -> Target.AccessDeniedHTTP and AccessDeniedTCP; also allow+deny together. oracle (netip): allow admits only inside the well-formed blocks, deny rejects inside them, a malformed item never widens. non-trivial = rule with >=1 well-formed block and a peer inside it, or a malformed item")
+		"every allow/deny list of 1..2 items from 17 items (v4/v6 blocks and single addresses, blocks nested in wider ones with the same base address, case/space variants, /33, /129, bad address, empty, unknown type, missing type, double slash) x 10 peers (incl. zone-scoped and v4-mapped v6) x X-Forwarded-For in {none, inside, outside, inside+outside, garbage, peer itself, chains with unparsable elements before/between addresses}, through NewTable opts -> Target.AccessDeniedHTTP and AccessDeniedTCP; also allow+deny together. oracle (netip): allow admits only inside the well-formed blocks, deny rejects inside them, a malformed item never widens. non-trivial = rule with >=1 well-formed block and a peer inside it, or a malformed item")
 	var rules []c12Rule
 	for _, k := range []string{"allow", "deny"} {
 		for i, a := range c12Items {
